@@ -307,7 +307,8 @@ impl Sim {
         let mut rng = ChaChaRng::seed_from_u64(seed.wrapping_mul(0x9E37_79B9).wrapping_add(hist).wrapping_mul(0x2545_F491_4F6C_DD1D) ^ 0xC5);
         let aspen = rng.gen_range(1..=3u64);
         let blackburn = aspen + rng.gen_range(1..=2u64);
-        let uni = Universe::generate(&mut rng, profile);
+        let mut uni = Universe::generate(&mut rng, profile);
+        uni.upgrades = (aspen, blackburn);
         let nnodes = 3;
         let mut nodes = vec![];
         for id in 0..nnodes {
